@@ -378,7 +378,7 @@ Fixpoint lex_loop (fuel : nat) (pos : nat) (rest : list N) (acc : list item) : l
 (* newLexer strips a UTF-8 byte order mark; offsets are relative to the stripped contents *)
 Definition strip_bom (data : list N) : list N :=
   match data with
-  | 239 :: 187 :: 191 :: r => r
+  | a :: b :: c :: r => if (a =? 239) && (b =? 187) && (c =? 191) then r else data
   | _ => data
   end.
 
